@@ -825,12 +825,15 @@ func zvStep(r *vh.Run, c *zvCfg, alphabet []zvOp, hist []zvOp) (string, []zvOp, 
 		if len(missing) > 0 {
 			viol(vh.Sig("clause", "eligible_missing", "where", "locrib", "rewrite", rw), "Loc-RIB lacks eligible paths: %v (session's paths in Loc-RIB: %s)", missing, zvMultisetStr(session))
 		}
+		recExtra := 0
 		if regRec {
-			if m, _ := diff(rec.acc, expected); len(m) > 0 {
+			m, x := diff(rec.acc, expected)
+			if len(m) > 0 {
 				viol(vh.Sig("clause", "eligible_missing", "where", "client", "rewrite", rw), "recording client lacks eligible paths: %v (it holds: %s)", m, zvMultisetStr(rec.acc))
 			}
+			recExtra = len(x)
 		}
-		if ok && len(extra) > 0 {
+		if ok && len(extra)+recExtra > 0 {
 			// A path that is eligible but that the current policy rejects / rewrote differently, or that
 			// stayed behind after Unregister, is outside C06's statement (C05 / C12 territory). Not
 			// demanded; such states are not expanded further (their Loc-RIB content can grow without bound).
